@@ -110,6 +110,8 @@ func GenCell(t *rapid.T, row, col int, wide bool) Cell {
 	case FormulaNum, Number:
 		c.Text = GenNumber(t, "num")
 		c.ExplicitN = rapid.IntRange(0, 4).Draw(t, "explicitN") == 0
+	case Date:
+		c.Text = rapid.SampledFrom([]string{"2024-01-31T00:00:00Z", "1999-12-31", "2024-02-29T13:45:10.250", "1900-03-01T00:00:00", "2031-07-04T23:59:59Z"}).Draw(t, "date")
 	case Bool:
 		c.Text = rapid.SampledFrom([]string{"0", "1"}).Draw(t, "bool")
 	case Error:
